@@ -78,6 +78,17 @@ def build(P):
         yield ("cast-matrix", [repl_case("C01-cast-%d" % k, prof_expr.CAST_SETUP + ch, meta=dict(units=ch)) for k, ch in enumerate(chunks(cmx, 300))]
                               + [Case(id="C01-castf-%d" % i, prog=("\n".join(prof_expr.CAST_SETUP + ["OUTPUT \"before\"", "OUTPUT " + e if "<-" not in e else e, "OUTPUT \"after\""]) + "\n").encode(), meta=dict(units=["castf/%d" % i]))
                                  for i, e in enumerate(cmx) if "<-" not in e and (i % 3 == 0 or tier == "thorough")])
+        # (a4) every file statement and EOF in every handle state (closed / READ / WRITE / APPEND / RANDOM; file present or absent), file mode
+        fsm = []
+        states = {"closed": [], "READ": ["OPENFILE \"m.txt\" FOR READ"], "WRITE": ["OPENFILE \"m.txt\" FOR WRITE"], "APPEND": ["OPENFILE \"m.txt\" FOR APPEND"], "RANDOM": ["OPENFILE \"m.txt\" FOR RANDOM"]}
+        ops = ["OUTPUT EOF(\"m.txt\")", "READFILE \"m.txt\", line", "WRITEFILE \"m.txt\", \"w\"", "SEEK \"m.txt\", 1", "SEEK \"m.txt\", 9", "GETRECORD \"m.txt\", line", "PUTRECORD \"m.txt\", line", "CLOSEFILE \"m.txt\"",
+               "OPENFILE \"m.txt\" FOR READ", "OPENFILE \"m.txt\" FOR WRITE", "OPENFILE \"m.txt\" FOR RANDOM", "OUTPUT EOF(\"other.txt\")", "OUTPUT EOF(5)", "OUTPUT EOF(\"\")"]
+        for stn, pre in states.items():
+            for op in ops:
+                for present in (True, False):
+                    prog = "\n".join(["DECLARE line : STRING", "line <- \"v\""] + pre + ["OUTPUT \"before\"", op, "OUTPUT \"after\"", op, "OUTPUT \"twice\""]) + "\n"
+                    fsm.append(Case(id="C01-fsm-%s-%d-%d" % (stn, ops.index(op), present), prog=prog.encode(), files=({"m.txt": ("f", b"STRING 1 a\nline2\n")} if present else {}), meta=dict(units=["fsm/%s/%s/%s" % (stn, op, present)])))
+        yield ("file-state-matrix", fsm)
         # (b) token sequences up to length 3 over the vocabulary, as REPL entries
         seqs = [[a] for a in VOCAB] + [[a, b] for a in VOCAB for b in VOCAB]
         n3 = sizes(tier, 12000, 400000)
@@ -461,6 +472,9 @@ def build(P):
         prog = b"OUTPUT \"from file\"\nfv <- 5\nOUTPUT fv\n"
         bad = b"OUTPUT \"before\"\nOUTPUT 1 DIV 0\n"
         cases = [repl_case("C12-runfile-1", ["a <- 1", "RUNFILE run.pseudo", "a", "fv", "RUNFILE bad.pseudo", "a", "RUNFILE missing.pseudo", "RUNFILE", "RUNFILE run.pseudo  ", "a + 1"], files={"run.pseudo": ("f", prog), "bad.pseudo": ("f", bad)}, meta=dict(noshrink=True)),
+                 repl_case("C12-runfile-first", ["RUNFILE bare.pseudo", "1 + 5", "\"abc\" & \"def\"", "bv", "RUNFILE bare.pseudo", "bv * 2", "2.5 * 3"], files={"bare.pseudo": ("f", b"bv <- 3\nbv + 1\nLENGTH(\"four\")\nOUTPUT \"file ran\"\nbv\n")}, meta=dict(noshrink=True)),
+                 repl_case("C12-runfile-later", ["x <- 2", "x", "RUNFILE bare.pseudo", "x + bv", "FUNCTION Tw(n : INTEGER) RETURNS INTEGER\nRETURN n * 2\nENDFUNCTION", "Tw(5)", "RUNFILE calls.pseudo", "Tw(x)"],
+                           files={"bare.pseudo": ("f", b"bv <- 3\nbv + 1\nOUTPUT \"file ran\"\nbv\n"), "calls.pseudo": ("f", b"FUNCTION Tr(n : INTEGER) RETURNS INTEGER\nRETURN n * 3\nENDFUNCTION\nTr(4)\nOUTPUT Tr(1)\n")}, meta=dict(noshrink=True)),
                  repl_case("C12-prefix", ["FORMAT <- 1", "FORMAT", "IFx <- 2", "IFx + FORMAT", "TYPEa <- 3", "TYPEa", "WHILEY <- 4", "CASEY <- 5", "REPEATER <- 6", "PROCEDURES <- 7", "FUNCTIONAL <- 8", "WHILEY + CASEY + REPEATER + PROCEDURES + FUNCTIONAL", "?", "", "FORMAT"], meta=dict(noshrink=True, role="prefix")),
                  repl_case("C12-echo", ["5", "2.5", "10 / 4", "4 / 2", "TRUE", "'c'", "\"s\"", "1/2/2003", "TYPE E = (A, B)", "B", "TYPE P = ^INTEGER", "DECLARE p : P", "p", "x <- 3", "p <- ^x", "p", "TYPE R\nDECLARE f : INTEGER\nENDTYPE", "DECLARE r : R", "r", "x = 3", "LENGTH(\"abc\")", "1e5", "100000.0 * 100000.0 * 100000.0", "0.1 + 0.2"], meta=dict(noshrink=True)),
                  Case(id="C12-eof-in-block", mode="repl", stdin=b"x <- 1\nIF x = 1 THEN\nOUTPUT 1\n", meta=dict(noshrink=True)),
@@ -503,7 +517,7 @@ def build(P):
             if r.exit != 0: msgs.append("the session ended with exit status %d" % r.exit)
         return msgs
 
-    C12 = dict(cases=c12_cases, builds_quick=["normal", "san"], oracle=c12_oracle, nontrivial=lambda c, r, m: c.mode == "repl",
+    C12 = dict(cases=c12_cases, builds_quick=["normal", "san"], model_is_oracle=("out", "exit", "files", "termination"), oracle=c12_oracle, nontrivial=lambda c, r, m: c.mode == "repl",
                rule="generated programs split into REPL entries (block constructs closed by a blank line) and compared with their file-mode run on the real interpreter, the same with "
                     "failing entries interleaved; random short histories over a 16-statement alphabet with state probes; establish / fail / probe sessions for every error kind "
                     "(syntax, undefined name, type mismatch, redeclaration, constant assignment, index out of bounds, file-state error, failing first assignment) against the session "
